@@ -91,6 +91,28 @@ CHECKS = {
 
 NOT_BUILT_REASON = "check not built yet in this round (planned in DESIGN.md §3; runtime monitoring does apply)"
 
+PARALLEL = {"C01","C02","C04","C05","C06","C07","C08","C10","C14","C15","C17","C18","C19"}
+BUILD386 = {"C01","C02","C03","C04","C05","C06","C07","C08","C09","C10","C11","C12","C13","C14","C15","C16","C17","C18","C19","C20"}
+EXTRA = {
+ "C01": " Call sequences on related keys with inputs in buffers reused in place and interleaved Sign calls; canonical S in [2^252, L) built from small-order keys.",
+ "C02": " Wrap-around shift candidates, sibling-derivation histories, one parent object used by 4 goroutines, appends into the spare capacity of returned slices.",
+ "C03": " Concurrent class on a freshly selected list.",
+ "C04": " Acceptance-set scan over checksum values (all 2^30 in thorough); returned slices re-inspected after later calls.",
+ "C06": " Reused dst slices with retained outputs; closing squeezes of originals and clones run concurrently.",
+ "C07": " Dense message-length sweep, chunked readers, reused key/message buffers.",
+ "C09": " Seed sequences across word-list switches, concurrent class, caller-overwritten UnmarshalText buffers.",
+ "C10": " Caller-modified results and reused receivers.",
+ "C11": " Shared-Worker and long-lived-Worker (message buffer edited in place) classes.",
+ "C12": " Shared-Worker and long-lived-Worker classes; long single-worker mines re-hashed by a bit-sliced 64-lane model.",
+ "C13": " Optional second caller on the same Worker.",
+ "C14": " Sequences of up to 5000 groups with late faults.",
+ "C15": " Leaf counts up to 2^18 (2^20 thorough), shared Hasher objects, delayed first failing leaf.",
+ "C16": " Acceptance-set scan (targeted constants; all 2^30 checksum values in thorough) converted into weight<=4 witnesses; concurrent Decode class.",
+ "C17": " Constructed boundary points, t*n+d scalars, argument immutability, reused scalar buffers.",
+ "C18": " Dense alpha-length sweep; reuse (one Proof object), related (prefix-sharing alphas) and concurrent classes.",
+ "C20": " Concurrent class; ptrace single-step trace of every memory access in thorough.",
+}
+
 def main():
     props = [json.loads(l) for l in open(os.path.join(ROOT, "properties.jsonl")) if l.strip()]
     checks, na = [], []
@@ -98,6 +120,11 @@ def main():
         pid = p["id"]
         if pid in CHECKS:
             tech, text, note, ref = CHECKS[pid]
+            text += EXTRA.get(pid, "")
+            if pid in PARALLEL:
+                text += " Cases of a shard are judged on 4 goroutines (shared state inside the library shows up as wrong verdicts)."
+            if pid in BUILD386:
+                text += " Additionally run as a 32-bit build (GOARCH=386) at reduced volume."
             checks.append({
                 "property_id": pid,
                 "quick_cmd": f"./run_check.sh {pid} quick",
